@@ -30,6 +30,11 @@ var solvers = map[string]solverSpec{
 	"z3-new/em": {"z3-new/em", func(f string, t int) []string {
 		return []string{"z3-new", fmt.Sprintf("-T:%d", t), "smt.auto_config=false", "smt.mbqi=false", "smt.candidate_models=true", "-smt2", f}
 	}},
+	// E-matching without relevancy filtering: instantiates on terms below disjunctions that the search has not yet
+	// made relevant (needed for merged paths, whose facts are disjunctions)
+	"z3-new/em0": {"z3-new/em0", func(f string, t int) []string {
+		return []string{"z3-new", fmt.Sprintf("-T:%d", t), "smt.auto_config=false", "smt.mbqi=false", "smt.relevancy=0", "-smt2", f}
+	}},
 	"z3-new": {"z3-new", func(f string, t int) []string { return []string{"z3-new", fmt.Sprintf("-T:%d", t), "-smt2", f} }},
 	"z3":     {"z3", func(f string, t int) []string { return []string{"z3", fmt.Sprintf("-T:%d", t), "-smt2", f} }},
 	"cvc5":   {"cvc5", func(f string, t int) []string { return []string{"cvc5", fmt.Sprintf("--tlimit=%d", t*1000), "--produce-models", f} }},
@@ -174,7 +179,7 @@ func solveAll(dir string, jobs []*solveJob, tier string, timeoutS int, workers i
 				return
 			}
 			defer os.Remove(file)
-			order := []string{"z3-new/em", "z3-new", "cvc5", "z3"}
+			order := []string{"z3-new/em", "z3-new/em0", "z3-new", "cvc5", "z3"}
 			if strings.Contains(j.text, "str.in_re") {
 				order = []string{"z3-new", "z3"} // cvc5 1.0.3 does not terminate on these
 			}
